@@ -769,7 +769,7 @@ std::vector<UnitsPtr> unitsUsed(const ModelPtr &model, const ComponentConstPtr &
             auto requiredUnits = referencedUnits(model, availableUnits);
             usedUnits.insert(usedUnits.end(), requiredUnits.begin(), requiredUnits.end());
             usedUnits.push_back(availableUnits);
-        } else if (model == nullptr) {
+        } else if ((model == nullptr) && (u != nullptr)) {
             usedUnits.push_back(u);
         }
     }
